@@ -130,6 +130,28 @@ func TestC07(t *testing.T) {
 			}
 		}
 	}
+	// key usage 0 is not a key usage (RFC 3961 section 4): the library may refuse it, but if it answers, the
+	// answer is the one the derivation formula gives for the number 0, not an underived one
+	for _, ct := range cksumTypes {
+		et := cksumEtypeSpec(ct)
+		e, err := crypto.GetChksumEtype(ct)
+		if err != nil {
+			continue
+		}
+		key := randKey(rng, et)
+		data := rng.Bytes(17)
+		var sum []byte
+		var cerr error
+		pan := Protect(func() { sum, cerr = e.GetChecksumHash(key, data, 0) })
+		v.Case(fmt.Sprintf("usage-zero/%d", ct), fmt.Sprintf("usage 0 cksumtype=%d", ct))
+		if pan != "" || cerr != nil {
+			continue
+		}
+		op := fmt.Sprintf("cr.cksum %d %s 0 %s", et, X(key), X(data))
+		if mr := m.Ask(op); mr != "ok "+X(sum) {
+			v.Violate("failing-input", fmt.Sprintf("c07:value:%d:usage-zero", ct), "the checksum for the usage number 0 is not the one the derivation formula gives (the key was not derived)", map[string]string{"op": op, "go": X(sum), "model": mr})
+		}
+	}
 	// a key of the wrong size verifies nothing: not the checksum made with the right key, not an empty or
 	// zero checksum (an error inside the computation must not read as a match)
 	for _, ct := range cksumTypes {
